@@ -5,6 +5,7 @@ Model: Preflate/Model/Codec.lean (encoder/decoder of cabac_codec.rs down to the 
 context-coded and bypass bits). Statements only; lemmas are in Preflate/Proofs/Codec.lean.
 -/
 import Preflate.Proofs.Codec
+import Preflate.Proofs.VP8
 import Preflate.Gen.Consts
 namespace Preflate
 
@@ -19,6 +20,40 @@ theorem decode_encode (ops : List Op) (hwf : ∀ o ∈ ops, o.WF) (rest : List E
     ∃ evs, encodeOps 0 ops = .ok evs ∧
       decodeOps 0 (ops.map Op.kind) (evs ++ rest) = .ok (ops, 0, rest) :=
   Proofs.decode_encode ops hwf rest
+
+/-- The bool coder (crate cabac 0.6.0 `VP8Writer` / `VP8Reader`, transcribed in Model/VP8.lean and
+    compared byte for byte with the crate on every run) is lossless: whatever sequence of binary
+    decisions (adaptive contexts and bypass bits, in any order) is written, reading the produced bytes
+    back under the same context sequence returns the same bits. No bound on the number of decisions:
+    the 32-bit `low`, the carry propagation through 0xFF runs, the 64-bit reader window and the
+    padding / trailing-byte rule of `finish` are all inside. -/
+theorem vp8_lossless (evs : List Ev) :
+    VP8.readBits (VP8.writeEvents evs) (evs.map (·.ctx)) = evs.map (·.bit) :=
+  Proofs.vp8_lossless evs
+
+/-- BYTE LEVEL: any sequence of well-formed operations, once encoded to bytes and finished, decodes
+    to the same sequence when read back with the same sequence of operation kinds. The decoder's
+    demands are modelled by check-and-fail (`getBit` fails when the context it asks for is not the one
+    the next decision was written under): `decode_encode` shows no check fails, so a demand-driven
+    decoder asks exactly the encoder's context sequence, under which `vp8_lossless` returns the
+    encoder's bits. -/
+theorem bytes_roundtrip (ops : List Op) (hwf : ∀ o ∈ ops, o.WF) :
+    ∃ evs bytes, encodeOps 0 ops = .ok evs ∧ encodeBytes ops = .ok bytes ∧
+      VP8.readEvents bytes (evs.map (·.ctx)) = evs ∧
+      decodeOps 0 (ops.map Op.kind) (VP8.readEvents bytes (evs.map (·.ctx))) = .ok (ops, 0, []) := by
+  obtain ⟨evs, he, hd⟩ := decode_encode ops hwf []
+  rw [List.append_nil] at hd
+  have hz : ∀ l : List Ev, List.zipWith Ev.mk (l.map (·.ctx)) (l.map (·.bit)) = l := by
+    intro l
+    induction l with
+    | nil => rfl
+    | cons e l ih => simp [ih]
+  have hr : VP8.readEvents (VP8.writeEvents evs) (evs.map (·.ctx)) = evs := by
+    unfold VP8.readEvents
+    rw [vp8_lossless, hz]
+  refine ⟨evs, VP8.writeEvents evs, he, ?_, hr, ?_⟩
+  · simp [encodeBytes, he, bind, Except.bind]
+  · rw [hr]; exact hd
 
 /-- The encoder's pending default run never exceeds one operation. -/
 theorem default_count_le_one (c : Nat) (op : Op) (evs : List Ev) (c' : Nat)
